@@ -679,3 +679,49 @@ func c09ContainsStr(l []string, x string) bool {
 	}
 	return false
 }
+
+// Group "names07" (C07 only): the one place where the names reported to the user differ
+// from the names created — an archive entry header whose path id is not the archive's
+// own.  archiveFileWriter.Write drops the local name createDirOrFile chose for it.
+func init() { groups["names07"] = genNames07 }
+
+func genNames07(c *ctx) {
+	cwd, _ := os.Getwd()
+	root := filepath.Join(cwd, "names07_sb")
+	dest := filepath.Join(root, c09DestRel)
+	os.MkdirAll(dest, 0755)
+	defer os.RemoveAll(root)
+	for _, overwrite := range []bool{false, true} {
+		os.RemoveAll(dest)
+		os.MkdirAll(dest, 0755)
+		v := trzsz.VerifNamesNew(overwrite, true, 2)
+		name := `{"path_id":0,"path_name":["d"],"is_dir":true,"archive":true}`
+		entry := `{"path_id":7,"path_name":["other","x"],"is_dir":false,"archive":false,"size":1}`
+		_, rep, isArch, err := v.RecvName(dest, name, nil)
+		if err != nil || !isArch {
+			c.count("names07:archive-record-refused")
+			continue
+		}
+		if err := v.ArchiveEntry(entry, []byte("!")); err != nil {
+			c.count("names07:foreign-entry-refused")
+			continue
+		}
+		ents, _ := os.ReadDir(dest)
+		for _, e := range ents {
+			if e.Name() != rep {
+				c.violate("archive-entry-foreign-top-level",
+					"a top-level name was created by an archive entry but is not among the names reported to the user",
+					fmt.Sprintf("overwrite=%v NAME %s (reported %q) then archive entry header %s: %q created in the destination", overwrite, name, rep, entry, e.Name()))
+			}
+		}
+		c.count("names07:foreign-entry-accepted")
+		// and the model agrees on what a later collision with that name would be renamed to
+		snap := c09Snapshot(root)
+		got, gerr := trzsz.VerifGetNewName(dest, "other")
+		res := "ok:" + hex.EncodeToString([]byte(got))
+		if gerr != nil {
+			res = "err"
+		}
+		c.emit(true, "names_new", res, c09HexPath(c09DestRel), snap.listing(), hx([]byte("other")))
+	}
+}
